@@ -1141,6 +1141,58 @@ pub fn run_c06_newer_first(sc: &StaleCase) -> Outcome {
     Outcome::pass(true, vec!["newer-stream-aborted-before-the-stale-handle"])
 }
 
+/// One end finishes its direction (shutdown) and drops the stream while the other direction is still open; the other end then goes on
+/// writing. It cannot be told by a Finish or a Reset of its own accord - the flow is simply gone at the peer -, but its first Push on the
+/// vanished flow must be answered with a Reset, so that its writes fail with BrokenPipe from then on instead of succeeding into the
+/// void until the window is used up and then blocking for ever.
+pub const FINISHED_THEN_DROPPED_CASES: u64 = 2 * 2 * 2;
+pub fn finished_then_dropped_case(i: u64) -> Case {
+    let side = (i % 2) as usize; // who opens
+    let leaver_end = ((i / 2) % 2) as usize; // which end finishes and drops
+    let wrote = i / 4 == 1;
+    let mut leaver_w = vec![];
+    if wrote {
+        leaver_w.push(WOp::Write(3));
+    }
+    leaver_w.push(WOp::Shutdown);
+    leaver_w.push(WOp::Drop);
+    let stayer = EndScript { w: vec![WOp::Park(1), WOp::Write(1), WOp::Park(2), WOp::Write(1), WOp::Park(3), WOp::Write(1)], r: vec![ROp::ToEof(16)] };
+    let mut ends = [EndScript::default(), EndScript::default()];
+    ends[leaver_end] = EndScript { w: leaver_w, r: vec![] };
+    ends[1 - leaver_end] = stayer;
+    Case {
+        opts: [OptsSpec { rwnd: 8, thr: 2, ..OptsSpec::default() }, OptsSpec { rwnd: 8, thr: 2, ..OptsSpec::default() }],
+        streams: vec![StreamSpec { side, port: 4, pad: vec![], delay: 0, park: None, cancel: None, ends }],
+        events: (1u8..=3).map(|n| RawEvent { when: Trigger::Quiescent, what: What::Wake(n) }).collect(),
+        ..Case::default()
+    }
+}
+pub fn run_finished_then_dropped(case: &Case) -> Outcome {
+    let run = run_case(case);
+    if !run.quiescent {
+        return inconclusive(&run);
+    }
+    let a = Analysis::new(case, &run);
+    if a.conn_end_at.is_some() {
+        viol!(a, "c06-connection-ended", "the connection ended");
+    }
+    let stayer_end = if case.streams[0].ends[0].w.contains(&WOp::Drop) { 1 } else { 0 };
+    let st = &a.streams[0].ends[stayer_end];
+    if st.eof_at.is_none() {
+        viol!(a, "c05-eof-not-delivered", "the end that stays never saw the end-of-stream of the end that finished and dropped");
+    }
+    // three writes, each after a quiescent point: the first may still succeed (nobody has told this end yet); its Push is answered
+    // with a Reset, so the third one at the latest has to fail
+    let ok = st.nonempty_writes;
+    if st.write_errs.is_empty() {
+        viol!(a, "c06-writes-succeed-after-the-peer-let-go", "the peer finished its direction and dropped the stream (its flow is gone); {ok} later writes of this end, each made after the system had come to rest, all succeeded: nobody tells this end that nobody is listening (no Reset for its Push on the vanished flow)");
+    }
+    if st.write_errs.iter().any(|e| e.1 != "BrokenPipe") {
+        viol!(a, "c06-wrong-write-error", "writes after the peer let go failed with {:?}", st.write_errs);
+    }
+    Outcome::pass(true, vec!["peer-finished-then-dropped"])
+}
+
 pub fn c06(ctx: &Ctx, rep: &mut Report) {
     rep.rule = "rounds (2-8) of open/close cycles separated by quiescence, every order of write/shutdown/drop/read on the two ends, flow ids scripted from {0,1,2,3} so that a freed id is proposed again at once, 0-2 bystander streams (ids >= 100) exchanging data in every round; \
                 oracle: C02/C03/C05 oracles on everything, bystanders complete, and a model of which ids each endpoint must still hold, replayed against the Connect frames on the wire: a freed id must be chosen again by its owner (no leaked local slot) and acknowledged by the peer (no leaked peer slot). \
@@ -1154,6 +1206,7 @@ pub fn c06(ctx: &Ctx, rep: &mut Report) {
     // the id of a stream that ended on the wire is used again while the application still holds the old handle
     ctx.prop(rep, "stale-handle", t.pick(20_000, 400_000), 0, c06_stale_case, run_c06_stale);
     ctx.enumerate(rep, "stale-handle-newer-first", NEWER_FIRST_CASES, 3, newer_first_case, run_c06_newer_first);
+    ctx.enumerate(rep, "finished-then-dropped", FINISHED_THEN_DROPPED_CASES, 8, finished_then_dropped_case, run_finished_then_dropped);
     // a stream whose requester gave up around the moment the peer's Acknowledge arrived is dropped un-collected: like every stream
     // dropped without shutdown it must be aborted on the wire (Reset) and its id released (family shared with C07 / C10)
     ctx.enumerate(rep, "abandoned-request", CANCELLED_REQUEST_CASES, 6, cancelled_request_case, run_cancelled_request);
